@@ -61,8 +61,14 @@ func (g *Gen) addCancel() {
 	x := mk(neg, c, e)
 	var y d128.Decimal
 	switch g.r.Intn(5) {
-	case 0: // exact cancellation through another cohort member
+	case 0: // exact cancellation through another cohort member, or the very same encoding
 		y = g.cohort(mk(!neg, c, e))
+		if g.r.Intn(2) == 0 {
+			y = mk(!neg, c, e)
+		}
+		// the sign of an exact zero depends on the mode: plain and ...WithMode forms under every mode
+		g.allDefaultModes("Add", x, y)
+		g.allDefaultModes("Sub", x, y.Neg())
 	case 1: // off by a unit
 		c2 := new(big.Int).Add(c, big.NewInt(int64(g.r.Intn(3)-1)))
 		if c2.Sign() < 0 || c2.Cmp(cMax) > 0 {
